@@ -44,6 +44,18 @@ def templates(tier="quick"):
     dup = next(i for i, o in enumerate(ops) if o["op"] == "duplog")
     T.append(scenario("c08/log_tools/long_history", "c08", [v0, v1], ops=ops, init=[build, dup], depth=d,
                       tags=["buildlog", "tools", "recompaction"]))
+    # the same project with `builddir` bound: the log lives in bd/
+    b0 = Variant("v0", v0.stmts, header="builddir = bd")
+    b1 = Variant("v1", v1.stmts, header="builddir = bd")
+    # (`-t restat` runs before the manifest is read and has to be told: --builddir=DIR)
+    import copy
+    bops = copy.deepcopy(ops)
+    for o in bops:
+        if o.get("tool") and o.get("tool_kind") == "restat":
+            o["flags"] = ["-t", "restat", "--builddir=bd"] + list(o.get("tool_args", []))
+            o["label"] = "ninja " + " ".join(o["flags"]) + (" [a fault at every file operation]" if o.get("crash") else "")
+    T.append(scenario("c08/log_tools/builddir", "c08", [b0, b1], ops=bops, init=[build], depth=d, tags=["buildlog", "tools", "builddir"],
+                      builddir="bd"))
     # logs of unsupported versions (older and newer), with plausible content
     for ver in (4, 6, 8, 70):
         log = "# ninja log v%d\n1\t2\t1700000000000000000\ta\tabcdef\n3\t4\t1700000000000000000\tb\t123456\n" % ver
